@@ -288,8 +288,6 @@ class Extractor:
             sig = re.sub(r'\bfn\s+' + re.escape(kv['fn']) + r'\b', 'fn ' + kv['rename'], sig, count=1)
             rules.append('rename')
 
-        body = self.rewrite_body(body, rules, self.mode)
-
         # --- ghost splices (R3)
         for g in ghosts:
             if g['modes'] and self.mode not in g['modes']:
@@ -335,10 +333,21 @@ class Extractor:
                         raise LostAnchor('name_iter anchor is not a for loop')
                     body = body[:m.start() + mm.end()] + text.strip() + ': ' + body[m.start() + mm.end():]
             rules.append('R3')
+        body = self.rewrite_body(body, rules, 'R' if kv.get('r6') == 'always' else self.mode)
         rules = sorted(set(rules), key=rules.index)
 
-        cl = [c for (modes, c) in contract if not modes or self.mode in modes]
-        text = sig + '\n' + ''.join('    ' + c + '\n' for c in cl) + body
+        eff_mode = self.mode
+        contract_only = False
+        if kv.get('bodymode') and kv['bodymode'] != self.mode:
+            # the body is verified in the other mode's unit; here only its contract is used
+            eff_mode = kv['bodymode']
+            contract_only = True
+            rules.append('contract-only(body verified in %s-mode unit)' % eff_mode)
+        cl = [c for (modes, c) in contract if not modes or eff_mode in modes]
+        if contract_only:
+            text = '#[verifier::external_body]\n' + sig + '\n' + ''.join('    ' + c + '\n' for c in cl) + '{ unimplemented!() }'
+        else:
+            text = sig + '\n' + ''.join('    ' + c + '\n' for c in cl) + body
 
         # --- wrapping in the impl header
         if kv.get('wrap', 'yes') == 'yes' and hdr is not None:
@@ -356,7 +365,7 @@ class Extractor:
             text = header + ' {\n' + assoc + text + '\n}'
         meta.append(dict(id='%s::%s::%s' % (rel.split('/src/')[-1], norm_ws(kv.get('impl', '')), kv.get('rename', kv['fn'])),
                          file=rel, lines=[l0, l1], sha256=sha, rules=rules, mode=self.mode,
-                         contract_clauses=len(cl)))
+                         contract_clauses=0 if contract_only else len(cl), contract_only=contract_only))
         return text
 
     def extract_struct(self, kv, meta):
